@@ -94,6 +94,8 @@ def generate(seed, tier='quick'):
            'chunk_size': rng.choice([32, 64, 256, 16384]),
            'uuid_collision': backend != 'cloud' and rng.random() < 0.15,
            'faults': None, 'horizon': 3.0}
+    if backend == 'dict' and rng.random() < 0.4:
+        scn['dict_kind'] = 'shelf'
     if backend == 'redis':
         # the key prefix is configuration: any string is legal
         scn['redis_prefix'] = rng.choice(['slimta:', 'slimta:', 'mailq-',
